@@ -191,7 +191,8 @@ def direct_frame(cmd, before, after):
 def _run_history(item):
     hid, fs0, cmds = item
     st = starters()
-    d = tempfile.mkdtemp(prefix='c20_')
+    # the budget may live under a path with blanks and characters that are special to glob / regex / shells
+    d = tempfile.mkdtemp(prefix='c20 [2025] (a)+$_' if sum(map(ord, hid)) % 4 == 1 else 'c20_')
     try:
         crlf = sum(map(ord, hid)) % 3 == 0
         # the budget may be in either folder layout (./config or ./tally/config, commands run from the project folder):
